@@ -62,3 +62,45 @@ func inRangeTerm(idx *Term, n int) *Term {
 	}
 	return Cmp(OULt, idx, BV(idx.sort.W, uint64(n)))
 }
+
+// collectLocs gathers the mutable heap locations reachable from v: pointer targets,
+// slice element cells and map objects.
+func collectLocs(v value, locs map[interface{}]bool, seen map[interface{}]bool) {
+	switch x := v.(type) {
+	case *value:
+		if x == nil || seen[x] {
+			return
+		}
+		seen[x] = true
+		locs[x] = true
+		collectLocs(*x, locs, seen)
+	case []value:
+		full := x[:cap(x)]
+		for i := range full {
+			locs[&full[i]] = true
+		}
+		for _, e := range x {
+			collectLocs(e, locs, seen)
+		}
+	case *Map:
+		if x == nil || seen[x] {
+			return
+		}
+		seen[x] = true
+		locs[x] = true
+		for _, e := range x.entries {
+			collectLocs(e.k, locs, seen)
+			collectLocs(e.v, locs, seen)
+		}
+	case structure:
+		for _, e := range x {
+			collectLocs(e, locs, seen)
+		}
+	case array:
+		for _, e := range x {
+			collectLocs(e, locs, seen)
+		}
+	case iface:
+		collectLocs(x.v, locs, seen)
+	}
+}
